@@ -65,3 +65,6 @@ pub open spec fn res_is<T>(r: Result<T>, sr: SRes<T>) -> bool {
 // the empty string literal has no bytes
 pub axiom fn axiom_empty_str()
     ensures str_bytes("") == Seq::<u8>::empty();
+
+// ---- the two slice-cast helpers of lib.rs (external real text): identity casts; Kani leaf leaf_slice_casts_are_identity
+pub assume_specification<'a, T>[ assume_init_slice::<T> ](s: &'a mut [MaybeUninit<T>]) -> (r: &'a mut [T]);
